@@ -19,7 +19,9 @@ LEVEL_TEXT = ("Every labelled simple graph on <=4 nodes (5 in the thorough tier)
               "with diag(objective) and each returned mixer with its documented operator sum.")
 LEVEL_NOTE = ("Trusted base: qp.matrix of the returned operators, numpy krons.  An operator with zero terms is read as the zero operator. "
               "For reward sets that are empty or complete only 'constant diagonal' is required (no value documented). "
-              "grouping_indices, operator term order and return types are not checked; rustworkx digraphs only with payload == index.")
+              "grouping_indices, operator term order and return types are not checked; rustworkx digraphs only with payload == index. "
+              "Recognised deviation classes (known findings, everything else in those cases is still compared): unconstrained penalty scaled "
+              "3/4 instead of the documented 3; rustworkx graphs with removed nodes; length-4 reward lists with repeats.")
 DESIGN_REF = "5.10 C72"
 START = "fork"
 PARALLEL = True
